@@ -159,6 +159,21 @@ def run(chk: Check) -> None:
             r2.ok("append only after is_ignored_error() returned true", aei.loc(a.stmt))
         else:
             r2.violation("append only after is_ignored_error() returned true", aei.loc(a.stmt), "an ignore comment is recorded as used on a path where it suppressed nothing")
+    # a disabled code never marks the comment as used
+    en_tests = [n for n in g.nodes if n.kind == "test" and any(call_name(c) == "is_error_code_enabled" for c in n.calls())]
+    for a in appends:
+        ok = False
+        for t in en_tests:
+            e = t.exprs[0]
+            negated = isinstance(e, ast.UnaryOp) and isinstance(e.op, ast.Not)
+            disabled_side = [m for m, lab in t.succ if lab == ("true" if negated else "false")]
+            if g.must_pass(g.entry, [a], [t], labels_excluded=("exc",)) and a not in g.reachable(disabled_side, avoiding=[t], labels_excluded=("exc",)):
+                ok = True
+        key = "the comment is recorded as used only when the suppressed error's code is enabled"
+        if ok:
+            r2.ok(key, aei.loc(a.stmt))
+        else:
+            r2.violation(key, aei.loc(a.stmt), "an error whose code is disabled (it would not have been reported anyway) marks the `type: ignore` comment as used: --warn-unused-ignores then misses a comment that suppresses nothing")
     # who-may-append
     writers = []
     for q, f in ix.functions.items():
